@@ -51,6 +51,7 @@ ASSUMPTIONS = [
 
 MULTI = ("tsb", "gbc", "gac", "guc", "ls_request", "ls_reply")
 EGO = (415000000, 21000000)
+FAR = (EGO[0] + 200000, EGO[1] + 200000)     # about 2.8 km away: outside every area centred at EGO used here
 
 
 # ------------------------------------------------------------------------------------------------ virtual timers
@@ -195,6 +196,18 @@ class Station:
 
     def set_now(self, now):
         self.clock.ms = now + ITS_EPOCH_MS - 5000
+
+    def ego(self, lat, lon, pai, via, now):
+        """move the station / toggle its position-accuracy flag between receptions (no packet involved)"""
+        self.set_now(now)
+        if via == "tpv":
+            import datetime
+            iso = datetime.datetime.fromtimestamp(self.clock.ms / 1000.0, datetime.timezone.utc).isoformat()
+            self.r.refresh_ego_position_vector({"lat": lat / 1e7, "lon": lon / 1e7, "speed": 0.0, "track": 0.0, "time": iso})
+        else:
+            old = self.r.ego_position_vector
+            self.r.ego_position_vector = LongPositionVector(gn_addr=old.gn_addr, tst=old.tst, latitude=lat, longitude=lon,
+                                                            pai=bool(pai), s=old.s, h=old.h)
 
     def canon(self, entries, d):
         out = []
@@ -419,8 +432,13 @@ def gen_single(rng, n_ops):
         if x < 0.24 and sent:
             ops.append(["fire", rng.choice(sent)[1]])
             continue
+        if rng.random() < 0.05:
+            # the station moves (inside <-> far outside the areas used below) or loses / regains position accuracy
+            ops.append(["ego", *rng.choice([EGO, FAR, (EGO[0] + 30000, EGO[1])]), rng.randrange(2), rng.choice(["swap", "tpv"]), now])
+            continue
         if cfg["cbf"] and rng.random() < 0.2:
-            # contention scenario: GBC into an area around ego, overheard again (or not) before the timer expires
+            # contention scenario: GBC into an area around EGO received while the station is inside it; before the timer
+            # expires the station may move out of the area / toggle PAI, and the packet is overheard again (or not)
             a = rng.choice(srcs)
             T = now - rng.randrange(0, 1000)
             sn = next_sn[a]
@@ -428,11 +446,21 @@ def gen_single(rng, n_ops):
             fr = frame("gbc", lpv(a, T, *pos[a]), sn=sn, rhl=rng.choice([2, 3, 10]), mhl=10,
                        area=(EGO[0], EGO[1], 500, 500, 0), payload=b"cbf")
             sent.append((fr.hex(), [a, sn], T))
+            ops.append(["ego", EGO[0], EGO[1], 1, "swap", now])
             ops.append(["rx", fr.hex(), T, now])
-            for _ in range(rng.randrange(0, 3)):
+            for _ in range(rng.randrange(0, 4)):
                 now += rng.randrange(0, 50)
-                ops.append(["rx", fr.hex(), T, now] if rng.random() < 0.7 else ["fire", [a, sn]])
+                z = rng.random()
+                if z < 0.35:
+                    where = rng.choice([FAR, FAR, EGO])
+                    ops.append(["ego", where[0], where[1], rng.choice([1, 1, 0]), rng.choice(["swap", "tpv"]), now])
+                elif z < 0.85:
+                    ops.append(["rx", fr.hex(), T, now])
+                else:
+                    ops.append(["fire", [a, sn]])
             ops.append(["fire", [a, sn]])
+            if rng.random() < 0.5:
+                ops.append(["ego", EGO[0], EGO[1], 1, "swap", now])
             continue
         if x < 0.40 and sent:                      # exact duplicate / replay of an earlier frame
             j = rng.randrange(len(sent)) if rng.random() < 0.4 else max(0, len(sent) - 1 - rng.randrange(3))
@@ -480,6 +508,9 @@ def run_single(case, clock, with_oracle=True):
     lines.append(f"cfg {case['self']} {cfg['lifetime_s'] * 1000} {cfg['dpl']} {cfg['cbf']}")
     outs.append("ok")
     for i, op in enumerate(case["ops"]):
+        if op[0] == "ego":
+            st.ego(op[1], op[2], op[3], op[4], op[5])
+            continue
         if op[0] == "rx":
             fr = bytes.fromhex(op[1])
             out, entries, line, d = st.rx(fr, op[3])
@@ -532,6 +563,7 @@ def check_single(ctx, case, clock, use_model=True):
             ctx.violation(what, dict(case, ops=case["ops"][:i + 1]), kf)
     if use_model and ctx.model_ok:
         ctx.extra.setdefault("_batch", []).append((case, outs, lines))
+    ctx.cover("op_ego", sum(1 for op in case["ops"] if op[0] == "ego"))
     for line, out in zip(lines[1:], outs[1:]):
         t = line.split(" ")
         ctx.cover("op_" + (t[1] if t[0] == "rx" else "fire"))
@@ -558,7 +590,7 @@ def flush_model(ctx):
     for case, outs, ls in batch:
         for i, r in enumerate(outs):
             if r != mo[k + i]:
-                ctx.mismatch("router.history", {"case": dict(case, ops=case["ops"][:i] if case["kind"] == "single" else case.get("ops")),
+                ctx.mismatch("router.history", {"case": case,
                                                 "line": ls[i]}, r, mo[k + i])
                 break
         k += len(outs)
